@@ -75,4 +75,44 @@ def call (l : Stk) (nargs : Nat) (nret : Int) (results : List OVal) : Stk :=
 /-- a failed protected call leaves neither function, arguments nor partial results. -/
 def callFailed (l : Stk) (nargs : Nat) : Stk := l.take (l.length - nargs - 1)
 
+/-! pseudo-indices (manual §3.3 "Pseudo-Indices", §3.4 "C Closures"): indices that are not stack positions.
+  `LUA_REGISTRYINDEX` (-10000), `LUA_ENVIRONINDEX` (-10001: the environment of the running C function),
+  `LUA_GLOBALSINDEX` (-10002), `lua_upvalueindex(n) = LUA_GLOBALSINDEX - n` for the n-th upvalue of the running
+  C function; for n greater than the number of upvalues the index is "acceptable but invalid": it reads as nil and a
+  store through it has no effect.  Registry, environment and globals are tables: storing anything else is an error.
+  None of them reads or changes the stack. -/
+
+inductive Pseudo where
+  | registry | environ | globals
+  | upvalue (n : Nat)
+deriving DecidableEq, Repr
+
+def pseudoOf (idx : Int) : Option Pseudo :=
+  if idx = -10000 then some .registry
+  else if idx = -10001 then some .environ
+  else if idx = -10002 then some .globals
+  else if idx < -10002 then some (.upvalue (-10002 - idx).toNat)
+  else none
+
+structure Cells where
+  registry : OVal
+  environ  : OVal
+  globals  : OVal
+  upvalues : List OVal
+deriving DecidableEq, Repr
+
+def pseudoGet (c : Cells) : Pseudo → OVal
+  | .registry => c.registry
+  | .environ => c.environ
+  | .globals => c.globals
+  | .upvalue n => if 1 ≤ n ∧ n ≤ c.upvalues.length then c.upvalues.getD (n - 1) none else none
+
+/-- `none` = error. -/
+def pseudoSet (c : Cells) (which : Pseudo) (v : OVal) (isTable : Bool) : Option Cells :=
+  match which with
+  | .registry => if isTable then some { c with registry := v } else none
+  | .environ => if isTable then some { c with environ := v } else none
+  | .globals => if isTable then some { c with globals := v } else none
+  | .upvalue n => if 1 ≤ n ∧ n ≤ c.upvalues.length then some { c with upvalues := c.upvalues.set (n - 1) v } else some c
+
 end GLua.StackSpec
